@@ -369,6 +369,39 @@ func Check(e Engine, o CheckOpts) int {
 		procs[k] = proc{cmd, outPath, logf}
 	}
 	infra := false
+	// watchdog: a worker whose progress marker does not move for 10 minutes is stuck in something the
+	// step budget cannot see (a blocking call, a loop in uninstrumented code): kill it, report INFRA
+	stopWatch := make(chan struct{})
+	go func() {
+		last := make([]uint64, len(procs))
+		since := make([]time.Time, len(procs))
+		for i := range since {
+			since[i] = time.Now()
+		}
+		for {
+			select {
+			case <-stopWatch:
+				return
+			case <-time.After(5 * time.Second):
+			}
+			for k := range procs {
+				pb, err := os.ReadFile(procs[k].out + ".progress")
+				if err != nil || len(pb) < 8 {
+					since[k] = time.Now() // finished (file removed) or not started
+					continue
+				}
+				cur := binary.LittleEndian.Uint64(pb)
+				if cur != last[k] {
+					last[k], since[k] = cur, time.Now()
+				} else if time.Since(since[k]) > stallLimit() {
+					fmt.Fprintf(os.Stderr, "INFRA: worker %d made no progress for %s at run %d; killing it (plan: vsim plan %s %s %d %d)\n", k, stallLimit(), cur, m.Property, o.Tier, o.Seed, cur)
+					_ = procs[k].cmd.Process.Kill()
+					since[k] = time.Now()
+				}
+			}
+		}
+	}()
+	defer close(stopWatch)
 	agg := &WorkerOut{Skipped: map[string]uint64{}, Faults: map[string]int{}, Probes: map[string]int{}, Extra: map[string]float64{}, Known: map[string]uint64{}}
 	nt := map[uint64]struct{}{}
 	st := map[uint64]struct{}{}
@@ -604,6 +637,15 @@ func ReplayFile(e Engine, path string) int {
 		fmt.Printf("  other: %s: %s\n", v.Sig, v.Detail)
 	}
 	return 2
+}
+
+func stallLimit() time.Duration {
+	if v := os.Getenv("VERIF_STALL_LIMIT"); v != "" {
+		if d, err := time.ParseDuration(v); err == nil {
+			return d
+		}
+	}
+	return 10 * time.Minute
 }
 
 // ReplayProperty reads the property id out of a replay file.
